@@ -68,6 +68,7 @@ class SymCtx(BaseCtx):
         self.eng = eng
         self.lib = lib
         self.inputs = {}        # name -> SR var (scalars) in creation order
+        self.int_inputs = set()
         self.pinned = pinned
         from vf.engine import install
         self.np = install.NP
@@ -88,6 +89,22 @@ class SymCtx(BaseCtx):
                 add(v.z >= S.zval(S.to_frac(lo)))
             if hi is not None:
                 add(v.z <= S.zval(S.to_frac(hi)))
+        return v
+
+    def integer(self, name, lo, hi):
+        """integer-valued input (z3 Int lifted to a real)."""
+        import z3
+        from vf.engine import scalars as S
+        iv = z3.Int(name)
+        v = S.SR.atom(z3.ToReal(iv))
+        if name not in self.inputs:
+            self.inputs[name] = (v, lo, hi)
+        self.int_inputs.add(name)
+        add = self.eng.add_def
+        if self.pinned is not None:
+            add(iv == int(round(float(self.pinned[name]))))
+        else:
+            add(z3.And(iv >= int(lo), iv <= int(hi)))
         return v
 
     def arr(self, name, n, lo=-1000.0, hi=1000.0):
@@ -200,6 +217,12 @@ class ConcCtx(BaseCtx):
         v = np.float64(self.given[name])
         if (lo is not None and v < lo) or (hi is not None and v > hi):
             raise PreconditionFailed('%s=%r outside [%r,%r]' % (name, v, lo, hi))
+        return v
+
+    def integer(self, name, lo, hi):
+        v = int(round(float(self.given[name])))
+        if v < lo or v > hi or abs(float(self.given[name]) - v) > 1e-9:
+            raise PreconditionFailed('%s=%r not an integer in [%r,%r]' % (name, self.given[name], lo, hi))
         return v
 
     def arr(self, name, n, lo=-1000.0, hi=1000.0):
